@@ -108,6 +108,50 @@ def stepped_query(rng):
     return {"op": "and", "kids": [a, {"op": "or", "kids": [b, c], "b4": 4}], "b4": 4}
 
 
+def span_docs(rng, n):
+    """body: `a` x tf, a gap of `b`s, `ab` x tf - frequencies constant over runs (good and poor runs in turn), the
+    gap wide in about every third document: the conjunction of `a` and `ab` holds every document, the phrase only
+    those with a narrow gap, wherever a block begins"""
+    runlen = rng.choice([2, 3, 4, 6])
+    levels = [rng.choice([2, 3, 4]) if j % 2 == 0 else 1 for j in range(n // runlen + 2)]
+    if rng.random() < 0.3:
+        levels = [rng.choice([1, 1, 2, 3, 4]) for _ in levels]
+    docs = {}
+    for i in range(n):
+        tf = levels[i // runlen]
+        gap = rng.choice([0, 0, 1, 5, 6])
+        docs["k%02d" % i] = {"t": {"body": [[1]] * tf + [[2]] * gap + [[1, 2]] * rng.choice([1, tf]),
+                                   "title": [[1]] if rng.random() < 0.5 else []}, "n": {}, "b4": 4}
+    return docs
+
+
+def stepped_span_query(rng):
+    """positional queries on the stepped lists: every document holds `a .. a [b .. b] [ab]`, so whether the last
+    `a` and the `ab` are within the slop changes from run to run - the conjunction underneath has documents (and
+    whole blocks) without a matching span"""
+    t = lambda c: {"op": "term", "f": "body", "t": c, "b4": 4}
+    form = rng.choice(["phrase", "phrase", "phrase-ab", "near", "near", "sequence", "not", "first", "or-phrase"])
+    slop = rng.choice([1, 1, 2, 3, 4])
+    if form == "phrase":
+        return {"op": "phrase", "f": "body", "words": [[1], [1, 2]], "slop": slop, "b4": rng.choice([4, 4, 8])}
+    if form == "phrase-ab":
+        return {"op": "phrase", "f": "body", "words": [[1], [2]] + ([[1, 2]] if rng.random() < 0.5 else []),
+                "slop": slop, "b4": 4}
+    if form == "near":
+        return {"op": "spannear", "a": t([1]), "b": t([1, 2]), "slop": slop, "ordered": rng.random() < 0.7,
+                "mindist": rng.choice([1, 1, 2])}
+    if form == "sequence":
+        return {"op": "sequence", "kids": [t([1]), t([2]) if rng.random() < 0.5 else t([1, 2])], "slop": slop,
+                "ordered": True}
+    if form == "not":
+        return {"op": "spannot", "a": t([1]), "b": {"op": "spannear", "a": t([1]), "b": t([2]), "slop": 1,
+                                                     "ordered": True, "mindist": 1}}
+    if form == "first":
+        return {"op": "spanfirst", "q": t([2]) if rng.random() < 0.6 else t([1, 2]), "limit": rng.choice([1, 2, 3])}
+    return {"op": "or", "kids": [{"op": "phrase", "f": "body", "words": [[1], [1, 2]], "slop": slop, "b4": 4},
+                                 {"op": "term", "f": "title", "t": [1], "b4": 4}], "b4": 4}
+
+
 def check(run):
     quick = run.tier == "quick"
     rng = random.Random(run.seed + 1212)
@@ -149,6 +193,17 @@ def check(run):
     c11.judge_traces(run, "C12", trs, meta, "c12-sweep")
     c11.NOTIMPL.clear()
     run.extra["quality_events"] += sum(1 for t in trs for e in t if e["ev"] in ("quality", "blockscan", "skipq", "replace"))
+    # positional queries on the stepped lists (a span matcher sits on top of a conjunction that moves by blocks)
+    for mode, nw, sweep in (("exact", 4 if quick else 30, False), ("rank", 2 if quick else 12, False),
+                            ("exact", 2 if quick else 12, True)):
+        trs, meta, cases = c11.collect(run, rng, nw, 10 if quick else 20, mode, thresholds, quality=True,
+                                       ndocs=(12, 30), nsteps=(6, 16),
+                                       docgen=lambda r, n: (span_docs if r.random() < 0.7 else stepped_docs)(r, n),
+                                       qgen=stepped_span_query, plangen=stepped_plan, qbias=0.5,
+                                       blocklimits=(1, 2, 3, 4), scored_only=False, sweep=sweep)
+        c11.judge_traces(run, "C12", trs, meta, "c12-spans-" + mode + ("-sweep" if sweep else ""))
+        c11.NOTIMPL.clear()
+        run.extra["quality_events"] += sum(1 for t in trs for e in t if e["ev"] in ("quality", "blockscan", "skipq", "replace"))
     # one large sparse segment: the array-based union of three and more clauses reads 2048 documents at a time;
     # its bounds must cover the (boosted) postings of the windows still to come
     trs, meta, cases = c11.collect(run, rng, 2 if quick else 10, 5 if quick else 8, "exact", thresholds, quality=True,
